@@ -27,7 +27,8 @@ RULE = ("job = seed -> (scenario: version x flavour x options; op script: "
         "effective choice log); non-trivial = both handshakes ran to a result "
         "and at least one perturbation actually fired"
         ' closeSocket=False (bidirectional close) is a scenario dimension.'
-        ' sync mode goes through the blocking entry points (handshakeServer, handshakeClient*(async_=False)); the server may be told the name it serves (sni).')
+        ' sync mode goes through the blocking entry points (handshakeServer, handshakeClient*(async_=False)); the server may be told the name it serves (sni).'
+        ' Generator protocol: an operation yields at most one result value.')
 LEVEL_TEXT = ("Seeded search over transport schedules: every run compares a "
               "perturbed execution (random recv/send sizes, would-blocks, "
               "delivery delays, step order, 1-byte I/O, blocking API on "
@@ -169,6 +170,10 @@ def execute(seed, sc, script, mode, chooser):
         tr["status"].append(st)
         for w in "cs":
             tr["ops"][w] = [o.sig() for o in eps[w].history[1:]]
+            # the documented generator protocol: at most one result value
+            tr["_multi"] = tr.get("_multi", []) + [
+                [w, list(o.desc), o.nvalues] for o in eps[w].history
+                if o.nvalues > 1]
     tr["wire"] = {"c2s": variants.stream_digest(pair.link.c2s, mode),
                   "s2c": variants.stream_digest(pair.link.s2c, mode)}
     tr["_sim"] = sim
@@ -246,6 +251,16 @@ def run(job, streams=None):
                      "sig": "%s|%s" % (mode, _stable(where)),
                      "msg": "mode=%s scenario=%s: %s" %
                      (mode, json.dumps(sc, sort_keys=True), d)})
+    for tr_ in (ref, got):
+        for w_, d_, n_ in tr_.get("_multi", []):
+            viol.append({"rule": "outcome",
+                         "sig": "generator_protocol|%s|%d_results" % (d_[0],
+                                                                      n_),
+                         "msg": "mode=%s scenario=%s: %s op %r yielded %d "
+                         "result values; a caller following the generator "
+                         "protocol stops at the first and sees another "
+                         "outcome than the blocking call" %
+                         (mode, json.dumps(sc, sort_keys=True), w_, d_, n_)})
     stats = dict(got["_sim"].stats) if got.get("_sim") is not None else \
         dict(got.get("_stats", {}))
     stats.update(got.get("_stats", {}))
